@@ -6,6 +6,8 @@ package obs
 import (
 	"fmt"
 	"reflect"
+	"sort"
+	"strconv"
 	"strings"
 	"sync"
 
@@ -349,4 +351,60 @@ func SourceOrderTokens(root ast.Vertex) []TokRef {
 	}
 	rec(root)
 	return out
+}
+
+// StructureCanon is Structure with the roles of each node sorted by name (the
+// canonical form shared with the program generator's expected trees).
+func StructureCanon(n ast.Vertex) string {
+	var sb strings.Builder
+	structureCanon(&sb, n)
+	return sb.String()
+}
+
+func structureCanon(sb *strings.Builder, n ast.Vertex) {
+	if IsNil(n) {
+		sb.WriteString("nil")
+		return
+	}
+	sb.WriteByte('(')
+	sb.WriteString(Kind(n))
+	fs := Fields(n)
+	idx := make([]int, 0, len(fs))
+	for i, f := range fs {
+		switch f.Kind {
+		case FNode:
+			if f.Node != nil {
+				idx = append(idx, i)
+			}
+		case FNodes:
+			if len(f.Nodes) > 0 {
+				idx = append(idx, i)
+			}
+		case FBytes:
+			idx = append(idx, i)
+		}
+	}
+	sort.SliceStable(idx, func(a, b int) bool { return fs[idx[a]].Name < fs[idx[b]].Name })
+	for _, i := range idx {
+		f := fs[i]
+		sb.WriteByte(' ')
+		sb.WriteString(f.Name)
+		sb.WriteByte(':')
+		switch f.Kind {
+		case FNode:
+			structureCanon(sb, f.Node)
+		case FNodes:
+			sb.WriteByte('[')
+			for k, c := range f.Nodes {
+				if k > 0 {
+					sb.WriteByte(' ')
+				}
+				structureCanon(sb, c)
+			}
+			sb.WriteByte(']')
+		case FBytes:
+			sb.WriteString(strconv.Quote(string(f.Bytes)))
+		}
+	}
+	sb.WriteByte(')')
 }
